@@ -5,6 +5,7 @@ import MagpyVerif.Model.Celv
 import MagpyVerif.Model.CylSegWrap
 import MagpyVerif.Model.CylSegSpecial
 import MagpyVerif.Gen.Const
+import MagpyVerif.Model.InOut
 import Driver.Parse
 
 namespace Driver.KernFam
@@ -49,6 +50,14 @@ def field : P Field := do
   | "J" => pure .J
   | "M" => pure .M
   | t => throw s!"bad field {t}"
+
+def inout : P InOut := do
+  match (← tok) with
+  | "auto" => pure .auto
+  | "inside" => pure .inside
+  | "outside" => pure .outside
+  | "other" => pure .other
+  | t => throw s!"bad in_out {t}"
 
 def out (v : V3 Float) : String := s!"{v.x.toBits} {v.y.toBits} {v.z.toBits}"
 
@@ -158,6 +167,29 @@ def run : P String := do
   | "cylsegatan" => do
       let k ← flt; let phi ← flt
       pure s!"{(CylSeg.arctan_k_tan_2 k phi).toBits}"
+  | "l1" => do
+      -- the class's core function as getBH_level1 calls it when `in_out` is given (Model/InOut.lean)
+      let io ← inout
+      match (← tok) with
+      | "cuboid" => do
+          let f ← field; let d ← v3; let p ← v3; let x ← v3
+          pure (match cuboidL1 io f d p x with | some v => out v | none => "unmodelled")
+      | "sphere" => do
+          let f ← field; let d ← flt; let p ← v3; let x ← v3
+          pure (match sphereL1 io f d p x with | some v => out v | none => "unmodelled")
+      | "cylinder" => do
+          let f ← field; let d ← flt; let h ← flt; let p ← v3; let x ← v3
+          pure (match cylinderL1 io 200 f (d, h) p x with | some (some v) => out v | some none => "none" | none => "unmodelled")
+      | "tetra" => do
+          let f ← field; let a ← v3; let b ← v3; let c ← v3; let d ← v3; let p ← v3; let x ← v3
+          pure (match tetraL1 io f a b c d p x with | some v => out v | none => "unmodelled")
+      | "cylseg" => do
+          let _ ← tok  -- "int": the class's function is BHJM_cylinder_segment_internal
+          let f ← field; let x ← v3
+          let r1 ← flt; let r2 ← flt; let h ← flt; let p1 ← flt; let p2 ← flt
+          let pol ← v3
+          pure (match cylSegL1 io 200 f x r1 r2 h p1 p2 pol with | some (some v) => out v | some none => "none" | none => "unmodelled")
+      | t => throw s!"unknown l1 class {t}"
   | t => throw s!"unknown kern command {t}"
 
 def step (line : String) : String :=
